@@ -140,6 +140,9 @@ pub struct StreamSpec {
     pub search: Option<(Vec<RFilter>, usize, usize)>,
     /// index lookups
     pub lookups: Vec<u32>,
+    /// time lookups: (message j, delta in ms) -> time_ms = calculated time of message j in ms + delta
+    #[serde(default)]
+    pub time_lookups: Vec<(usize, i32)>,
 }
 
 #[derive(Clone, Debug, Serialize, Deserialize)]
@@ -162,6 +165,9 @@ pub enum Case {
         early_wait: usize,
         sched: SchedCfg,
         server_max_read: usize,
+        /// open with sort:true; the stream order is then observed through an unfiltered reference stream
+        #[serde(default)]
+        sorted: bool,
     },
 }
 
@@ -248,9 +254,9 @@ fn run_lib(trace: &[TMsg], query: bool, filters: &[String], window: (usize, usiz
     Ok(())
 }
 
-fn server_cmds(trace_len: usize, streams: &[StreamSpec], early_wait: usize) -> (Vec<Cmd>, Vec<(usize, usize)>) {
+fn server_cmds(trace_len: usize, streams: &[StreamSpec], early_wait: usize, sorted: bool) -> (Vec<Cmd>, Vec<(usize, usize)>) {
     // returns commands and, per command index, (stream no, role) bookkeeping is recomputed in the checker
-    let mut cmds = vec![Cmd::Open { variant: 0, sort: false, collect: "true".into() }];
+    let mut cmds = vec![Cmd::Open { variant: 0, sort: sorted, collect: "true".into() }];
     let mut map = vec![(usize::MAX, 0)];
     for (si, s) in streams.iter().enumerate() {
         if si == 1 && early_wait > 0 {
@@ -266,17 +272,36 @@ fn server_cmds(trace_len: usize, streams: &[StreamSpec], early_wait: usize) -> (
     (cmds, map)
 }
 
-fn run_server(trace: &[TMsg], streams: &[StreamSpec], early_wait: usize, sched: &SchedCfg, server_max_read: usize, ctx: &mut Ctx) -> Result<(), Violation> {
+fn run_server(trace: &[TMsg], streams_in: &[StreamSpec], early_wait: usize, sched: &SchedCfg, server_max_read: usize, sorted: bool, ctx: &mut Ctx) -> Result<(), Violation> {
     let msgs = to_dlts(trace, 0);
+    // sorted sessions: stream #0 is an unfiltered reference stream over everything; it shows the stream order
+    let mut streams_v: Vec<StreamSpec> = vec![];
+    if sorted {
+        streams_v.push(StreamSpec { query: false, filters: vec![], window: (0, msgs.len() + 10), binary: true, changes: vec![], search: None, lookups: vec![], time_lookups: vec![] });
+    }
+    streams_v.extend(streams_in.iter().cloned());
+    let streams = &streams_v[..];
+    // the lookups' own notion of a message's time: start of its lifecycle + timestamp (final table)
+    let m_time: Vec<u64> = if streams.iter().any(|s| !s.time_lookups.is_empty()) {
+        let r = crate::lc::run_stage(vec![msgs.clone()], ctx)?;
+        let starts: BTreeMap<u32, u64> = r.table.iter().map(|l| (l.id, l.start)).collect();
+        if r.out.len() != msgs.len() {
+            vec![]
+        } else {
+            r.out.iter().map(|m| starts.get(&m.lifecycle).map(|s| s + m.timestamp_us()).unwrap_or(m.reception_time_us)).collect()
+        }
+    } else {
+        vec![]
+    };
     let texts: Vec<String> = msgs.iter().map(|m| m.payload_as_text().map(|t| t.to_string()).unwrap_or_default()).collect();
     ctx.sig.u64(msgs.len() as u64);
     for s in streams {
         ctx.sig.str(&filters_json(&s.filters));
         ctx.sig.u64((s.window.0 as u64) << 20 | s.window.1 as u64);
     }
-    ctx.sig.u64(sched.seed);
+    ctx.sig.u64(sched.seed ^ sorted as u64);
     // ---- build the command script; stream k of the session gets the k-th announced id
-    let (mut cmds, _) = server_cmds(msgs.len(), streams, early_wait);
+    let (mut cmds, _) = server_cmds(msgs.len(), streams, early_wait, sorted);
     // after everything is parsed: window changes, searches, lookups (ids: Known(n) indexes the announced ids)
     // announced ids in order: one per created stream (if ok), then one per window change
     let mut known_n = streams.len();
@@ -288,6 +313,7 @@ fn run_server(trace: &[TMsg], streams: &[StreamSpec], early_wait: usize, sched: 
         Change(usize, (usize, usize)),
         Search(usize),
         Lookup(usize, u32),
+        TimeLookup(usize, u64),
     }
     let mut roles: Vec<Role> = cmds.iter().map(|_| Role::None).collect();
     {
@@ -319,6 +345,13 @@ fn run_server(trace: &[TMsg], streams: &[StreamSpec], early_wait: usize, sched: 
             cmds.push(Cmd::BinarySearch(SRef::Known(cur_ref[si]), format!("index={}", l)));
             roles.push(Role::Lookup(si, *l));
         }
+        for (j, d) in &s.time_lookups {
+            if let Some(t) = m_time.get(*j) {
+                let t_ms = std::cmp::max(0, (*t / 1000) as i64 + *d as i64) as u64;
+                cmds.push(Cmd::BinarySearch(SRef::Known(cur_ref[si]), format!("time_ms={}", t_ms)));
+                roles.push(Role::TimeLookup(si, t_ms));
+            }
+        }
     }
     cmds.push(Cmd::Wait(200));
     roles.push(Role::None);
@@ -331,7 +364,41 @@ fn run_server(trace: &[TMsg], streams: &[StreamSpec], early_wait: usize, sched: 
     // generic protocol consistency first (exactly one reply etc.)
     crate::c15::check_transcript(&session, &t, ctx)?;
     // ---- model
-    let filtered: Vec<Vec<usize>> = streams.iter().map(|s| (0..msgs.len()).filter(|i| set_keeps(&s.filters, &msgs[*i], &texts[*i])).collect()).collect();
+    // stream order: stream position -> message (file order unless sorted; then what the reference stream showed)
+    let order: Vec<usize> = if sorted {
+        let ref_id = t.events.iter().find_map(|e| if let Ev::Reply { cmd_no, text } = e { if matches!(roles[*cmd_no], Role::Create(0)) { announced_id(text) } else { None } } else { None });
+        let mut o: Vec<usize> = vec![];
+        for e in t.events.iter() {
+            if let Ev::Msgs { id, msgs: ms } = e {
+                if Some(*id) == ref_id {
+                    o.extend(ms.iter().map(|r| r.index as usize));
+                }
+            }
+        }
+        let mut seen = vec![false; msgs.len()];
+        for i in &o {
+            if *i >= msgs.len() || seen[*i] {
+                viol!("sorted-stream-not-permutation", "the unfiltered stream of the sorted file delivered message index {} twice or out of range", i);
+            }
+            seen[*i] = true;
+        }
+        if o.len() != msgs.len() {
+            viol!("sorted-stream-not-permutation", "the unfiltered stream of the sorted file delivered {} of {} messages although parsing finished long ago", o.len(), msgs.len());
+        }
+        ctx.probe("sorted_sessions");
+        if o.windows(2).any(|w| w[0] > w[1]) {
+            ctx.probe("sorted_sessions_order_differs_from_file");
+        }
+        o
+    } else {
+        (0..msgs.len()).collect()
+    };
+    let mut pos_of = vec![0usize; msgs.len()];
+    for (p, i) in order.iter().enumerate() {
+        pos_of[*i] = p;
+    }
+    // per stream: the stream positions that pass its filters
+    let filtered: Vec<Vec<usize>> = streams.iter().map(|s| (0..order.len()).filter(|p| set_keeps(&s.filters, &msgs[order[*p]], &texts[order[*p]])).collect()).collect();
     // walk the transcript: which id belongs to which (stream, window)
     let mut id_info: BTreeMap<u32, (usize, (usize, usize), usize)> = BTreeMap::new(); // id -> (stream, window, event index of the announcing reply)
     let mut announced: Vec<Option<u32>> = vec![];
@@ -432,13 +499,13 @@ fn run_server(trace: &[TMsg], streams: &[StreamSpec], early_wait: usize, sched: 
                 if k >= want.len() {
                     viol!("window-overrun", "{}: received {} messages, window holds {}", tag, g.len(), want.len());
                 }
-                let m = &msgs[want[k]];
+                let m = &msgs[order[want[k]]];
                 if r.index != m.index {
                     viol!("window-content", "{}: position {} carries message index {} but {} expected (each once, in order)", tag, lo + k, r.index, m.index);
                 }
                 let apid = m.extended_header.as_ref().map(|x| x.apid.as_u32le()).unwrap_or(0);
                 let ctid = m.extended_header.as_ref().map(|x| x.ctid.as_u32le()).unwrap_or(0);
-                if r.reception_time != m.reception_time_us || r.timestamp_dms != m.timestamp_dms || r.ecu != m.ecu.as_u32le() || r.apid != apid || r.ctid != ctid || r.mcnt != m.mcnt() || r.text != texts[want[k]] {
+                if r.reception_time != m.reception_time_us || r.timestamp_dms != m.timestamp_dms || r.ecu != m.ecu.as_u32le() || r.apid != apid || r.ctid != ctid || r.mcnt != m.mcnt() || r.text != texts[order[want[k]]] {
                     viol!("message-fields", "{}: message index {} differs from the file's (times/ids/counter/text)", tag, m.index);
                 }
             }
@@ -480,7 +547,7 @@ fn run_server(trace: &[TMsg], streams: &[StreamSpec], early_wait: usize, sched: 
                         union.extend(a.iter().filter_map(|x| x.as_u64()));
                     }
                 }
-                let want: Vec<u64> = (0..f.len()).filter(|p| *p >= *start && set_keeps(fs, &msgs[f[*p]], &texts[f[*p]])).map(|p| p as u64).collect();
+                let want: Vec<u64> = (0..f.len()).filter(|p| *p >= *start && set_keeps(fs, &msgs[order[f[*p]]], &texts[order[f[*p]]])).map(|p| p as u64).collect();
                 if union != want {
                     let cls = if s.filters.iter().all(|x| !x.enabled || x.kind == 2) { "search-in-unfiltered-stream" } else { "search-paging" };
                     viol!(cls, "stream #{} (filters {}): paging from {} with page size {} visited matches {:?}... but the matching stream positions are {:?}... ({} vs {})", si, filters_json(&s.filters), start, page, &union[..std::cmp::min(8, union.len())], &want[..std::cmp::min(8, want.len())], union.len(), want.len());
@@ -496,13 +563,36 @@ fn run_server(trace: &[TMsg], streams: &[StreamSpec], early_wait: usize, sched: 
                         }
                         let v: serde_json::Value = txt.split_once('=').and_then(|(_, j)| serde_json::from_str(j).ok()).unwrap_or(serde_json::Value::Null);
                         let got = v["filtered_msg_index"].as_u64();
-                        let want = f.iter().filter(|p| (**p as u32) < *idx).count() as u64;
+                        let want = f.iter().filter(|p| **p < pos_of[*idx as usize]).count() as u64;
                         if got != Some(want) {
-                            let cls = if streams[*si].filters.iter().all(|x| !x.enabled || x.kind == 2) { "lookup-in-unfiltered-stream" } else { "lookup-index" };
+                            let cls = if streams[*si].filters.iter().all(|x| !x.enabled || x.kind == 2) { "lookup-in-unfiltered-stream" } else if sorted { "lookup-index-sorted" } else { "lookup-index" };
                             viol!(cls, "stream #{}: lookup of message index {} returned {:?}, the first stream position not before it is {}", si, idx, got, want);
                         }
                         ctx.probe("lookups_checked");
                     }
+                }
+            }
+            Role::TimeLookup(si, t_ms) => {
+                let f = &filtered[*si];
+                let tm: Vec<u64> = order.iter().map(|i| m_time[*i]).collect();
+                if tm.windows(2).any(|w| w[0] > w[1]) {
+                    // the lookup presupposes a stream ordered by this time; nothing to judge otherwise
+                    ctx.probe("time_lookups_unjudged_stream_not_ordered_by_time");
+                    continue;
+                }
+                if let Some((_, txt)) = replies.get(&ci).and_then(|v| v.first()) {
+                    if !txt.starts_with("ok:") {
+                        viol!("lookup-failed", "time lookup {} ms on stream #{} failed: {}", t_ms, si, &txt[..std::cmp::min(100, txt.len())]);
+                    }
+                    let v: serde_json::Value = txt.split_once('=').and_then(|(_, j)| serde_json::from_str(j).ok()).unwrap_or(serde_json::Value::Null);
+                    let got = v["filtered_msg_index"].as_u64();
+                    let p = tm.iter().position(|x| *x >= t_ms * 1000).unwrap_or(tm.len());
+                    let want = f.iter().filter(|q| **q < p).count() as u64;
+                    if got != Some(want) {
+                        let ties = p + 1 < tm.len() && tm[p] == tm[p + 1];
+                        viol!(if ties { "lookup-time-ties" } else { "lookup-time" }, "stream #{}: lookup of time {} ms returned {:?}, the first stream position not before that time is {} (stream of {} messages, times around: {:?})", si, t_ms, got, want, f.len(), &tm[p.saturating_sub(2)..std::cmp::min(tm.len(), p + 3)]);
+                    }
+                    ctx.probe("time_lookups_checked");
                 }
             }
             _ => {}
@@ -567,11 +657,13 @@ impl Check for C16 {
                 let changes = if !query && k.chance(1, 2) { (0..k.urange(1, 2)).map(|_| { let a = k.usize(n + 3); (a, a + k.usize(n + 1)) }).collect() } else { vec![] };
                 let search = if !query && k.chance(1, 2) { Some(((0..k.urange(0, 2)).map(|_| gen_rfilter(&mut k)).map(|mut f| { f.kind = 0; f }).collect(), k.usize(5), *k.pick(&[1usize, 2, 3, 10, 100])) ) } else { None };
                 let lookups = if !query && k.chance(1, 2) { (0..k.urange(1, 3)).map(|_| k.usize(n) as u32).collect() } else { vec![] };
-                streams.push(StreamSpec { query, filters, window: (w0, w1), binary: query || k.chance(3, 4), changes, search, lookups });
+                let time_lookups = if !query && k.chance(1, 2) { (0..k.urange(1, 3)).map(|_| (k.usize(n), *k.pick(&[0i32, 0, 0, 1, -1, 2, -3, 1000, -1000]))).collect() } else { vec![] };
+                streams.push(StreamSpec { query, filters, window: (w0, w1), binary: query || k.chance(3, 4), changes, search, lookups, time_lookups });
             }
             let mut sched = SchedCfg::gen(&mut rng.sub("sched"));
             sched.max_steps = 8_000_000;
-            Case::Server { trace, streams, early_wait: *k.pick(&[0usize, 0, 5, 50, 400]), sched, server_max_read: *k.pick(&[0usize, 0, 7, 100]) }
+            let sorted = k.chance(2, 5);
+            Case::Server { trace, streams, early_wait: *k.pick(&[0usize, 0, 5, 50, 400]), sched, server_max_read: *k.pick(&[0usize, 0, 7, 100]), sorted }
         }
     }
     fn run(c: &Case, ctx: &mut Ctx) -> Result<(), Violation> {
@@ -581,10 +673,10 @@ impl Check for C16 {
                 ctx.probe("library_level_runs");
                 run_lib(trace, *query, filters, *window, batches, *chunk, window_growth, ctx)
             }
-            Case::Server { trace, streams, early_wait, sched, server_max_read } => {
+            Case::Server { trace, streams, early_wait, sched, server_max_read, sorted } => {
                 ctx.sig.u64(2);
                 ctx.probe("server_level_runs");
-                run_server(trace, streams, *early_wait, sched, *server_max_read, ctx)
+                run_server(trace, streams, *early_wait, sched, *server_max_read, *sorted, ctx)
             }
         }
     }
@@ -606,8 +698,8 @@ impl Check for C16 {
                     out.push(Case::Lib { trace: trace.clone(), query: *query, filters: filters.clone(), window: *window, batches: batches.clone(), chunk: *chunk, window_growth: vec![] });
                 }
             }
-            Case::Server { trace, streams, early_wait, sched, server_max_read } => {
-                let mk = |trace: Vec<TMsg>, streams: Vec<StreamSpec>, sched: SchedCfg| Case::Server { trace, streams, early_wait: *early_wait, sched, server_max_read: *server_max_read };
+            Case::Server { trace, streams, early_wait, sched, server_max_read, sorted } => {
+                let mk = |trace: Vec<TMsg>, streams: Vec<StreamSpec>, sched: SchedCfg| Case::Server { trace, streams, early_wait: *early_wait, sched, server_max_read: *server_max_read, sorted: *sorted };
                 for t in shrink_vec(trace) {
                     if !t.is_empty() {
                         out.push(mk(t, streams.clone(), sched.clone()));
@@ -625,6 +717,8 @@ impl Check for C16 {
                     if !s.changes.is_empty() { let mut x = s.clone(); x.changes.clear(); variants.push(x); }
                     if s.search.is_some() { let mut x = s.clone(); x.search = None; variants.push(x); }
                     if !s.lookups.is_empty() { let mut x = s.clone(); x.lookups.clear(); variants.push(x); }
+                    if !s.time_lookups.is_empty() { let mut x = s.clone(); x.time_lookups.clear(); variants.push(x); }
+                    if s.time_lookups.len() > 1 { for l in &s.time_lookups { let mut x = s.clone(); x.time_lookups = vec![*l]; variants.push(x); } }
                     if s.lookups.len() > 1 { for l in &s.lookups { let mut x = s.clone(); x.lookups = vec![*l]; variants.push(x); } }
                     for f in shrink_vec(&s.filters) { let mut x = s.clone(); x.filters = f; variants.push(x); }
                     if let Some((fs, st, pg)) = &s.search { for f in shrink_vec(fs) { let mut x = s.clone(); x.search = Some((f, *st, *pg)); variants.push(x); } }
@@ -649,26 +743,29 @@ impl Check for C16 {
             "search-paging" => Some("C16-search-paging-skips-position".into()),
             "search-in-unfiltered-stream" => Some("C16-search-in-unfiltered-stream-empty".into()),
             "lookup-in-unfiltered-stream" => Some("C16-index-lookup-in-unfiltered-stream".into()),
+            "lookup-time-ties" => Some("C16-time-lookup-ties".into()),
+            "lookup-index-sorted" => Some("C16-index-lookup-sorted-filtered".into()),
             _ => crate::lc::lc_finding_key(v),
         }
     }
     fn rule() -> &'static str {
-        "two kinds of runs: (lib) a simulated log (<= 300 messages), a generated filter set, stream or query with a window; StreamContext::from + process_stream_new_msgs are driven exactly like the server loop drives them with arbitrary arrival batchings (0..n new messages per call), chunk sizes {1,2,7,64,3M} and window growth between calls; after EVERY call filtered positions == matching positions below the processed length, nothing beyond the window for queries, processed <= available, and bounded progress once arrivals stop; (server) one websocket session (as C15) with 1-3 streams/queries with restricted filters (independent reference predicate), windows (empty, beyond the end, overlapping), binary and text streams, later window changes, paged searches with all page sizes and start positions, index lookups; frames per announced id compared with the model's filtered sequence; non-trivial = the filter set keeps some and drops some messages; distinct = hash of the case"
+        "two kinds of runs: (lib) a simulated log (<= 300 messages), a generated filter set, stream or query with a window; StreamContext::from + process_stream_new_msgs are driven exactly like the server loop drives them with arbitrary arrival batchings (0..n new messages per call), chunk sizes {1,2,7,64,3M} and window growth between calls; after EVERY call filtered positions == matching positions below the processed length, nothing beyond the window for queries, processed <= available, and bounded progress once arrivals stop; (server) one websocket session (as C15) with 1-3 streams/queries with restricted filters (independent reference predicate), windows (empty, beyond the end, overlapping), binary and text streams, later window changes, paged searches with all page sizes and start positions, index lookups, time lookups (at/around the calculated time of a chosen message); two in five sessions open the file with sort:true - the stream order is then whatever an additional unfiltered reference stream delivered (required to be a permutation of the file) and every filtered window, search and lookup is judged against that order; frames per announced id compared with the model's filtered sequence; non-trivial = the filter set keeps some and drops some messages; distinct = hash of the case"
     }
     fn assumptions() -> Vec<&'static str> {
         vec![
-            "server level runs use sort:false (stream order = file order); time lookups are not judged (calculated times are not monotone in unsorted streams)",
+            "whether a sorted stream is correctly ordered is C10's question; here a sorted session's order is taken from its unfiltered reference stream",
+            "a time lookup is judged only when the stream is ordered (non-strictly) by the lookup's own time function (start of the message's lifecycle, from an offline run of the lifecycle stage over the same file, plus timestamp); otherwise a binary search has no defined answer and the lookup only has to be answered",
             "'eventually' = after the server reported all messages parsed plus 300 further client polls; an id that was replaced by a window change may legitimately be incomplete",
             "library level M uses the real match_filters (batching invariance is what is decided there); server level uses an independent reference predicate over the restricted criteria the generator emits",
         ]
     }
     fn real_components() -> Vec<&'static str> {
-        vec!["remote_utils::{StreamContext::from, process_stream_new_msgs, match_filters}", "remote::{process_file_context, process_incoming_text_message, process_stream_search_params, binary_search_by_msg_index}", "parser pipeline threads", "tungstenite framing, bincode frames"]
+        vec!["remote_utils::{StreamContext::from, process_stream_new_msgs, match_filters}", "remote::{process_file_context, process_incoming_text_message, process_stream_search_params, binary_search_by_msg_index, binary_search_by_time_us}", "sort thread (buffer_sort_messages) in sorted sessions", "parser pipeline threads", "tungstenite framing, bincode frames"]
     }
     fn stub_components() -> Vec<&'static str> {
         vec!["connection loop replica (H2)", "in-memory transport, simulated clock", "client + model"]
     }
     fn required_reach() -> Vec<&'static str> {
-        vec!["library_level_runs", "server_level_runs", "window_changed_between_calls", "window_changes_checked", "searches_checked", "lookups_checked", "stream_messages_compared"]
+        vec!["library_level_runs", "server_level_runs", "window_changed_between_calls", "window_changes_checked", "searches_checked", "lookups_checked", "time_lookups_checked", "sorted_sessions", "sorted_sessions_order_differs_from_file", "stream_messages_compared"]
     }
 }
